@@ -286,9 +286,14 @@ CONTEXTS = [{"entry": "AsyncPolicy.context", "place": "call", "async_callbacks":
             {"entry": "AsyncRetry.context", "place": "both", "async_callbacks": "lambda", "every": 2},
             {"entry": "RetryPolicy.context", "place": "both", "every": 2}]
 
+# the sugar wrappers, configured by attribute assignment (every 3rd behaviour)
+SUGAR = [{"entry": "RetryPolicy", "place": "ctor", "every": 3},
+         {"entry": "AsyncRetryPolicy", "place": "call", "async_callbacks": True, "every": 3, "permute": True}]
+
 for _p in ("C01", "C02", "C03", "C04", "C05", "C10", "C11", "C13", "C14", "C16"):
     profile(_p, mc=f"RetryMC_{_p}.cfg", export=f"RetryMC_{_p}x.cfg",
-            variants=WALL + TIMEOUT_SAMPLED if _p == "C02" else (FOUR + TIMEOUT_VARIANTS if _p in ("C13", "C01") else
+            variants=WALL + TIMEOUT_SAMPLED if _p == "C02" else (FOUR + TIMEOUT_VARIANTS + SUGAR if _p == "C01" else
+                                                                 FOUR + TIMEOUT_VARIANTS if _p == "C13" else
                                                (FOUR[:3] + SHARED if _p == "C10" else
                                                 (FOUR + WRAPPED if _p in ("C11", "C04") else
                                                  (FOUR + CONTEXTS if _p == "C16" else FOUR)))),
